@@ -48,7 +48,10 @@ func genC18(t *rapid.T) *CaseC18 {
 	case 6, 7:
 		c.CRS = rapid.SampledFrom(knownCRS).Draw(t, "crs")
 	case 8:
-		c.CRS = rapid.SampledFrom([]int{0, -1, 1, 2000, 99999, 3856, 3858, 32600, 32661, 32700, 4327, math.MaxInt32, math.MinInt32}).Draw(t, "badcrs")
+		// neighbours of valid codes, and codes other systems use for Web Mercator / WGS84 that are NOT in the bundled
+		// table (ESRI 102100 / 102113 / 54004, the retired 3785 / 3587, 41001, 4326-like 104326 ...)
+		c.CRS = rapid.SampledFrom([]int{0, -1, 1, 2000, 99999, 3856, 3858, 32600, 32661, 32700, 4327, math.MaxInt32, math.MinInt32,
+			102100, 102113, 3785, 3587, 54004, 41001, 900912, 900914, 104326, 4979, 3395, 102003}).Draw(t, "badcrs")
 	default:
 		c.CRS = rapid.IntRange(-100000, 1000000).Draw(t, "anycrs")
 	}
